@@ -133,7 +133,7 @@ pub fn model(r: &mut Rng, cfg: &LpCfg) -> (LinearModel, Vec<String>) {
         let name = match cfg.naming {
             0 => String::new(),
             1 => format!("r{}", k),
-            _ => match r.below(8) { 0 | 1 => String::new(), 2 => "dup".to_string(), 3 => format!("__aux{}", k), _ => format!("r{}", k) },
+            _ => match r.below(9) { 0 | 1 => String::new(), 2 => "dup".to_string(), 3 => format!("__aux{}", k), 4 => format!("need__{}", k + 2), _ => format!("r{}", k) },
         };
         m.add_named_constraint(cs, c, rhs, &name);
     }
